@@ -154,6 +154,15 @@ CHECKS = {
               'relative output-file parameters resolved against the starting directory, no report after a failing simulation.'),
         design_ref='DESIGN.md section 4 C20',
         note='Direct main() is driven with absolute paths.'),
+    'C09': dict(
+        engine='xplore',
+        technique='bounded exhaustive exploration of the report writer\'s branch space through inputs; every printed figure (independent tokeniser) compared with an independent label->quantity specification evaluated on the pre-print snapshot',
+        category='exploration',
+        text=('3 economic models x 32 end-use/plant pairs x 4 reservoir models x shapes x 14 structural deviations + add-ons: ~160 distinct labels and '
+              '5 table families; each printed number must equal the specified quantity at printed precision in a unit of that quantity; tables must '
+              'have one row per (construction and) simulated year with consecutive labels and every cell equal to the series value.'),
+        design_ref='DESIGN.md section 4 C09',
+        note='report_spec.py is hand-written from the meaning of the labels; S-DAC-GT block unmodelled; percent-magnitude lines encoded as such.'),
 }
 
 
